@@ -990,6 +990,11 @@ def _inline_into(fn: ast.FunctionDef, cls: Optional[str], helpers, stats: Dict[s
         for body in _bodies(fn):
             for i, s in enumerate(body):
                 call, res_targets, kind = None, None, None
+                if isinstance(s, ast.AnnAssign) and isinstance(s.value, ast.Call) and isinstance(s.target, ast.Name) \
+                        and _find_helper(s.value, cls, helpers)[0] is not None:
+                    # `t: T = h(..)`: the annotation plays no role at run time
+                    s = ast.fix_missing_locations(ast.copy_location(ast.Assign(targets=[s.target], value=s.value), s))
+                    body[i] = s
                 if isinstance(s, ast.Assign) and isinstance(s.value, ast.Call):
                     call, kind = s.value, "assign"
                 elif isinstance(s, ast.Return) and isinstance(s.value, ast.Call):
